@@ -32,13 +32,27 @@ RULE = ("base files: seeded choice of write path (writer, writer HISTORY = porti
         "external link added / an existing feature replaced in place by an external link, shape "
         "of one image-like feature (image, image_bg, mask) changed, set-up value <= 0); the same "
         "path is checked before and after every single corruption; each file is checked, repacked+checked, "
-        "compressed+checked. A case is non-trivial when it has at least one corruption; "
-        "distinct = distinct (write path, feature set, corruption list).")
+        "compressed+checked. Session 4: 8 (quick) / 40 (thorough) LARGE scalar-only measurements "
+        "of 2e5-3e5 events (writer, export), clean and with one array-comparing corruption each in "
+        "rotation (event number skipped / duplicated / adjacent entries swapped at a position "
+        "biased towards the tail, feature truncated / extended by 1-3 rows, event count +-k or set "
+        "to a boundary value 0 / 1 / 2n+1); the boundary values also for the small files (two "
+        "recorded cases with event count 0); alert-exercising corruptions (flow rates that do not "
+        "add up, non-mandatory key removed, channel name without feature, temp feature without "
+        "temperature key); every uncorrupted file is exported again (every second event; all or "
+        "every second innate feature) and the output checked. A case is non-trivial when it has at "
+        "least one corruption; distinct = distinct (write path, feature set, corruption list).")
 TRUSTED_BASE = [
     "harness/c13_util.py:describe (raw h5py + dclab.definitions.feature_exists + "
     "DEFECTIVE_FEATURES) maps a file to the abstract description D; cue messages are mapped to "
     "canonical identifiers by regular expressions",
-    "h5py/HDF5 link and attribute semantics; numpy broadcasting rules (F13)"]
+    "h5py/HDF5 link and attribute semantics; numpy broadcasting rules (F13)",
+    "harness/c13_util.py:ALERT_RULES map alert messages to identifiers (an unrecognised alert "
+    "message switches the alert-level comparison off for that file, NOTE); flow rates are compared "
+    "as exact fractions of the stored doubles (the float addition sample+sheath is not modelled; "
+    "the generator stays far from the tolerance boundary)",
+    "the stored index crosses the protocol run-length encoded (`a-b` = a, a+1, ..., b), expanded "
+    "by Drive/C13.lean:parseRun"]
 ASSUMPTIONS = [
     "sections of ds.config exist when they hold a key or were touched before "
     "check_metadata_missing (experiment, setup, fluorescence) — Model/Check.lean:alwaysTouched",
@@ -48,10 +62,20 @@ ASSUMPTIONS = [
     "check_fl_samples_per_event raise IndexError (observation, not generated); event counts "
     "are never made negative"]
 NOT_PROVED = [
-    "alert- and info-level cues (not modelled; not compared)",
-    "closure for export/compress/repack/condense/split/join/tdms2rtdc outputs is "
-    "correspondence-only (the Lean closure theorem covers the writer model); the check asserts "
-    "no violation on every such file",
+    "alert level: modelled and compared are check_metadata_missing (non-mandatory keys, desirable "
+    "sections, temp rule), check_fl_metadata_channel_names, check_empty, check_flow_rate and the "
+    "uncommon-basin-path branch; NOT modelled (left out of the comparison by class): "
+    "check_fmt_hdf5 (image attributes, log line length), check_metadata_hdf5_type, "
+    "check_fl_max(_ctc)_positive, check_shapein_issue3_bad_medium, warnings recorded while "
+    "opening; info level: only 'Fluorescence: ...' (compression / format cues not modelled)",
+    "closure is proved for the writer model, writer histories, rtdc_copy (copy_output_clean, no "
+    "guard) and export.hdf5 (export_output_clean: any selection size and feature subset; F30 "
+    "guard); compress of a consistent file only via compress_same_violations_partial; "
+    "condense/split/join/tdms2rtdc outputs remain correspondence-only (the check asserts no "
+    "violation on every such file); exportD models the event-count rectification only (ROI / "
+    "samples / channel-count defaults keep their values: row shapes do not change)",
+    "the tolerant index comparison (indexOkTol) is a variant model: its only tie to real code is "
+    "the NumPy reference evaluation (np.allclose) on every stored index",
     "same_violations_after_copy holds only under the guards NoUnknownFeature (F23, open) and "
     "no external link (the copy resolves links); compress additionally rectifies derived "
     "metadata (O8) — modelled by rectifyD, reported as NOTE"]
@@ -72,6 +96,13 @@ FEATSETS = {
 }
 PATHS = ["writer", "history", "export", "export-subset", "compress", "repack", "condense", "split",
          "join"]
+#: large measurements (scalar features only, >= 2e5 events): the array-comparing cues (index
+#: enumerates, feature lengths) must be exact for every size, also far from the first event
+LARGE_FEATS = ["deform", "area_um", "index"]
+LARGE_PATHS = ["writer-large", "export-large"]
+#: corruptions whose cue compares whole arrays / lengths (drawn for the large files)
+ARRAY_KINDS = ["skipindex", "permindex", "dupindex", "trunc", "evcount", "evset", "extend",
+               "shiftindex"]
 
 
 def write_base(path, fs, n, rid="rid-c13", t0=0):
@@ -84,6 +115,17 @@ def write_base(path, fs, n, rid="rid-c13", t0=0):
 
 class ExportRaised(Exception):
     """dclab's export refused the request (not the integrity checker's business)"""
+
+
+def write_large(path, n):
+    """scalar-only file with `n` events (deterministic data, enumerated index)"""
+    dclab = common.import_dclab()
+    with dclab.RTDCWriter(path, mode="reset") as hw:
+        hw.store_metadata(base_meta("large"))
+        hw.store_feature("deform", np.linspace(0.01, 0.2, n))
+        hw.store_feature("area_um", np.linspace(20, 200, n))
+        hw.store_feature("index", np.arange(1, n + 1))
+    return path
 
 
 def feature_data(fs, toks):
@@ -150,6 +192,15 @@ def make_base(ctx, wd, spec):
         return write_base(out, fs, n)
     if wpath == "history":
         return write_history(out, fs, extra["ops"])
+    if wpath == "writer-large":
+        return write_large(out, n)
+    if wpath == "export-large":
+        write_large(src, n + 3)
+        with dclab.new_dataset(src) as ds:
+            ds.filter.manual[[0, n // 2, n + 2]] = False
+            ds.apply_filter()
+            ds.export.hdf5(out, features=list(LARGE_FEATS), filtered=True, override=True)
+        return out
     if wpath == "export":
         write_base(src, fs, n + 3)
         with dclab.new_dataset(src) as ds:
@@ -260,11 +311,21 @@ def important_keys(fl):
     return sorted(out)
 
 
-def gen_corruption(rng, h_info):
-    """choose one corruption applicable to the file; returns (kind, args…)"""
+def draw_pos(rng, n):
+    """position of an index defect: anywhere, with a bias towards the tail of the measurement"""
+    if rng.random() < 0.5:
+        return n - 1 - rng.randrange(max(1, n // 3))
+    return rng.randrange(n)
+
+
+def gen_corruption(rng, h_info, only=None):
+    """choose one corruption applicable to the file; returns (kind, args…); `only` restricts
+    the kinds (as far as they apply to the file)"""
     feats, traces, fl, n = h_info["feats"], h_info["traces"], h_info["fl"], h_info["n"]
     kinds = ["evcount", "evdel", "roi", "unknown", "defname", "delkey", "delkey", "nonpos",
-             "extlink", "evcount"]
+             "extlink", "evcount", "evset", "flowbad", "delopt", "addchan"]
+    if "temp" not in feats:
+        kinds += ["tempfeat"]
     scal = [f for f in feats if f not in ("trace",) and not f.startswith("basinmap")]
     if scal and n > 3:
         kinds += ["trunc", "extend"]
@@ -277,6 +338,8 @@ def gen_corruption(rng, h_info):
         kinds += ["roi", "delimaging"]
     if "index" in feats:
         kinds += ["permindex", "shiftindex", "permindex"]
+        if n >= 2:
+            kinds += ["skipindex", "dupindex"]
     else:
         kinds += ["addindex"]
     if fl:
@@ -285,9 +348,22 @@ def gen_corruption(rng, h_info):
         kinds += ["samples"]
     if fl and traces and n > 3:       # truncations keep at least one event (see ASSUMPTIONS)
         kinds += ["trtrunc"]
+    if only:
+        kinds = [k for k in kinds if k in only] or kinds
     k = rng.choice(kinds)
     if k in ("trunc", "extend"):
         return (k, rng.choice(scal), rng.randint(1, 3))
+    if k == "delopt":                   # a key that is neither mandatory nor optional: alert
+        return (k,) + rng.choice([("setup", "software version"), ("setup", "identifier"),
+                                  ("setup", "module composition"), ("setup", "flow rate sample")])
+    if k == "addchan":                  # channel name without the fluorescence feature
+        return (k, rng.choice([2, 3]))
+    if k == "evset":                    # boundary values of the event count
+        return (k, rng.choice([0, 0, 1, 2 * n + 1]))
+    if k == "skipindex":                # one event number skipped: later entries shifted by +1
+        return (k, draw_pos(rng, n))
+    if k == "dupindex":                 # one event number stored twice
+        return (k, max(1, draw_pos(rng, n)))
     if k == "imgshape":
         return (k, rng.choice(imgs), rng.choice(["x", "y"]), rng.choice([-1, 1, 3]))
     if k == "extreplace":
@@ -307,8 +383,8 @@ def gen_corruption(rng, h_info):
     if k == "permindex" and n < 2:
         return ("shiftindex",)
     if k == "permindex":
-        i = rng.randrange(n - 1)
-        return (k, i, rng.randrange(i + 1, n))
+        i = min(draw_pos(rng, n), n - 2)
+        return (k, i, i + 1 if rng.random() < 0.5 else rng.randrange(i + 1, n))
     if k in ("chancount", "lasercount", "samples"):
         return (k, rng.choice([-1, 1, 2]))
     if k == "trtrunc":
@@ -325,6 +401,10 @@ def expected_cues(op, info):
         return ["traceSize:" + op[1]]
     if k == "evcount":
         return ["featSize:" + f for f in info["feats"] if f != "trace" and info["known"](f)]
+    if k == "evset":
+        if info["n"] == op[1]:
+            return []
+        return ["featSize:" + f for f in info["feats"] if f != "trace" and info["known"](f)]
     if k == "evdel":
         return ["missingKey:experiment:event%20count"]
     if k == "roi":
@@ -339,7 +419,7 @@ def expected_cues(op, info):
         return [f"missingKey:{op[1]}:{op[2]}".replace(" ", "%20")]
     if k == "delimaging":
         return ["missingSection:imaging"]
-    if k in ("permindex", "shiftindex", "addindex"):
+    if k in ("permindex", "shiftindex", "addindex", "skipindex", "dupindex"):
         return ["indexNotEnumerated"] if info["n"] else []
     if k == "chancount" or k == "delchan":
         return ["channelCount"]
@@ -368,7 +448,7 @@ def apply_corruption(path, op, wd):
                 target = (ev, op[1])
             elif op[0] == "trtrunc":
                 target = (ev.get("trace", {}), op[1])
-            elif op[0] in ("permindex", "shiftindex"):
+            elif op[0] in ("permindex", "shiftindex", "skipindex", "dupindex"):
                 target = (ev, "index")
             if target is not None:
                 grp, name = target
@@ -413,6 +493,21 @@ def _apply_corruption(path, op, wd):
             if "experiment:event count" in h.attrs:
                 old = int(h.attrs["experiment:event count"])
                 h.attrs["experiment:event count"] = old + op[1] if old + op[1] >= 0 else old - op[1]
+        elif k == "flowbad":
+            if "setup:flow rate sheath" in h.attrs:
+                h.attrs["setup:flow rate sheath"] = float(h.attrs["setup:flow rate sheath"]) + 0.01
+        elif k == "delopt":
+            h.attrs.pop(f"{op[1]}:{op[2]}", None)
+        elif k == "addchan":
+            h.attrs[f"fluorescence:channel {op[1]} name"] = "verif"
+        elif k == "tempfeat":
+            if n0 == 0:
+                raise ValueError("no events")             # -> not applicable
+            if "temp" not in ev:
+                ev.create_dataset("temp", data=np.linspace(22.0, 23.0, max(n0, 1))[:n0])
+        elif k == "evset":
+            if "experiment:event count" in h.attrs:
+                h.attrs["experiment:event count"] = int(op[1])
         elif k == "evdel":
             h.attrs.pop("experiment:event count", None)
         elif k == "roi":
@@ -440,6 +535,17 @@ def _apply_corruption(path, op, wd):
         elif k == "shiftindex":
             if "index" in ev:
                 replace_ds(h, "events/index", ev["index"][:] + 1)
+        elif k == "skipindex":
+            a = ev["index"][:]
+            a[op[1] % len(a):] += 1
+            replace_ds(h, "events/index", a)
+        elif k == "dupindex":
+            a = ev["index"][:]
+            if len(a) < 2:
+                raise ValueError("index too short")       # -> not applicable
+            i = max(1, op[1] % len(a))
+            a[i] = a[i - 1]
+            replace_ds(h, "events/index", a)
         elif k == "addindex":
             if "index" not in ev:
                 ev.create_dataset("index", data=np.arange(n0, dtype=np.uint32))
@@ -530,14 +636,65 @@ def check_instance(path):
         return "exc:" + type(e).__name__ + ":" + common.err_class(e)
 
 
+#: alert and info messages of the most recent `check` (read right after the call)
+LAST = {"alerts": [], "info": []}
+
+
 def check(path):
     common.import_dclab()
     from dclab.rtdc_dataset.check import check_dataset
+    LAST["alerts"], LAST["info"] = [], []
     try:
         v, a, i = check_dataset(path)
+        LAST["alerts"], LAST["info"] = list(a), list(i)
         return c13_util.cue_ids(v), len(a)
     except Exception as e:  # noqa
         return "exc:" + type(e).__name__ + ":" + common.err_class(e), 0
+
+
+def export_again(p, out, variant):
+    """export.hdf5 of every second event of the file at `p` (all innate features, or every
+    second one); returns (m, keep names, violations of the output) or None when dclab refuses"""
+    dclab = common.import_dclab()
+    import warnings
+    try:
+        with warnings.catch_warnings():
+            warnings.simplefilter("ignore")
+            with dclab.new_dataset(p, enable_basins=False) as ds:
+                feats = sorted(ds.features_innate)
+                keep = feats if variant == 0 else feats[::2]
+                if len(ds) < 2 or not keep:
+                    return None
+                ds.filter.manual[1::2] = False
+                ds.apply_filter()
+                m = int(np.sum(ds.filter.all))
+                ds.export.hdf5(out, features=keep, filtered=True, override=True)
+    except Exception:  # noqa  -- a refused export is not the checker's business
+        return None
+    return m, keep, check(out)[0]
+
+
+def index_numpy(path):
+    """(exact, tolerant) comparison of the stored index with 1..N in NumPy, N = event count
+    (reference for the model's `indexOk` / `indexOkTol`; None without index / event count)"""
+    import h5py
+    try:
+        with h5py.File(path, "r") as h:
+            if "events" not in h or "index" not in h["events"] or \
+                    "experiment:event count" not in h.attrs:
+                return None
+            if not isinstance(h["events"].get("index", getlink=True), h5py.HardLink):
+                return None
+            a = h["events/index"][:]
+            n = int(h.attrs["experiment:event count"])
+            if a.ndim != 1 or a.dtype.kind not in "iu":
+                return None
+            ref = np.arange(1, n + 1)
+            if a.shape != ref.shape:
+                return "0 0"
+            return f"{int(np.all(a == ref))} {int(np.allclose(a, ref))}"
+    except Exception:  # noqa
+        return None
 
 
 def same_modulo_sections(v_path, v_inst):
@@ -593,7 +750,7 @@ def run_case(ctx, idx, spec, corr):
         rng = random.Random(f"c13-{corr[2]}")
         drawn = []
         for _ in range(corr[1]):
-            op = gen_corruption(rng, info)
+            op = gen_corruption(rng, info, only=corr[3] if len(corr) > 3 else None)
             if op[0] not in [o[0] for o in drawn]:
                 drawn.append(op)
         corr = drawn
@@ -624,9 +781,47 @@ def run_case(ctx, idx, spec, corr):
     res["corr"] = corr
     res["v"] = v
     res["alerts"] = nal
+    aids, unmod, unrec = c13_util.alert_ids(LAST["alerts"])
+    res["alert_ids"], res["alert_unrec"] = aids, unrec
+    for cls in unmod:
+        ctx.stat("alert_unmodelled:" + cls)
+    fl_info = [m for m in LAST["info"] if m.startswith("Fluorescence: ")]
+    res["info_fl"] = {"Fluorescence: True": "fl:1", "Fluorescence: False": "fl:0"}.get(
+        fl_info[0] if len(fl_info) == 1 else "", None)
+    if isinstance(v, list):
+        # property oracle: the inconsistencies the property names are violations, never alerts
+        for a in c13_util.cue_ids(LAST["alerts"]):
+            if a.startswith(c13_util.VIOLATION_CLASSES):
+                res["problems"].append(("spec", f"violation-class cue {a} is reported at alert "
+                                                f"level only (corruptions {corr})"))
+        pinned = {f"missingKey:{s_}:{k_}".replace(" ", "%20")
+                  for s_, k_ in important_keys(info["fl"])}
+        for a in aids:
+            if a in pinned:
+                res["problems"].append(("spec", f"mandatory metadata cue {a} is reported at alert "
+                                                f"level only (corruptions {corr})"))
+    res["index_np"] = index_numpy(p)
     res["empty_event_ds"] = has_empty_event_dataset(p)
-    res["lines"] = c13_util.describe(p) + ["viol", "violcopy", "violcompress", "oldindexraises",
-                                           f"exit {nal} {len(v) if isinstance(v, list) else 0}"]
+    queries = ["viol", "violcopy", "violcompress", "oldindexraises",
+               f"exit {nal} {len(v) if isinstance(v, list) else 0}", "alerts", "info",
+               f"exitof {len(unmod) + len(unrec)}", "indexok"]
+    res["qnames"] = ["viol", "violcopy", "violcompress", "oldindexraises", "exit", "alerts",
+                     "info", "exitof", "indexok"]
+    if not corr and isinstance(v, list):
+        ex = export_again(p, wd / "again.rtdc", idx % 2)
+        if ex is not None:
+            m, keep, vex = ex
+            res["export"] = {"m": m, "keep": keep, "v": vex}
+            ctx.stat("export_again")
+            queries.append(f"violexport {m} " + ",".join(c13_util.enc(k) for k in keep))
+            res["qnames"].append("violexport")
+            fls = [f for f in info["feats"] if f in ("fl1_max", "fl2_max", "fl3_max")]
+            kept = [f for f in fls if f in keep]
+            if v == [] and vex != [] and (not kept or len(kept) == len(fls)):
+                res["problems"].append(("spec", f"export.hdf5 of {m} events (features {keep}) of a "
+                                                f"violation-free file written through '{spec[0]}' "
+                                                f"has violations {str(vex)[:200]}"))
+    res["lines"] = c13_util.describe(p) + queries
     if not isinstance(v, list):
         count_removed = any(o[0] == "evdel" or o[:3] == ("delkey", "experiment", "event count")
                             for o in corr)
@@ -673,13 +868,13 @@ def run_case(ctx, idx, spec, corr):
 def applicable(op, corr, info):
     """a corruption's own cue can be masked only by another corruption of the same object"""
     same = [o for o in corr if o is not op and o[0] in (
-        "trunc", "extend", "evcount", "evdel", "roi", "delkey", "delimaging", "permindex",
-        "shiftindex", "addindex", "chancount", "lasercount", "samples", "delchan", "power0",
+        "trunc", "extend", "evcount", "evset", "evdel", "roi", "delkey", "delimaging", "permindex",
+        "shiftindex", "addindex", "skipindex", "dupindex", "chancount", "lasercount", "samples", "delchan", "power0",
         "nonpos", "trtrunc", "imgshape")]
     return not same
 
 
-DERIVED = ("evcount", "evdel", "roi", "samples", "delkey", "delimaging", "trunc", "extend",
+DERIVED = ("evcount", "evset", "evdel", "roi", "samples", "delkey", "delimaging", "trunc", "extend",
            "trtrunc", "chancount", "imgshape")
 
 
@@ -735,7 +930,9 @@ def judge(ctx, res, answers):
                 spec_bad = True
     mirror = []
     if answers is not None:
-        mv, mcopy, mcomp, oldraise, mexit = answers
+        ans = dict(zip(res.get("qnames", []), answers))
+        mv, mcopy, mcomp, oldraise, mexit = (ans.get(k) for k in (
+            "viol", "violcopy", "violcompress", "oldindexraises", "exit"))
         if isinstance(v, list):
             if " ".join(v) != (mv if mv != "-" else ""):
                 mirror.append(("check_dataset", v, mv))
@@ -748,6 +945,32 @@ def judge(ctx, res, answers):
             want = 3 if res["alerts"] and v else 1 if res["alerts"] else 2 if v else 0
             if str(want) != mexit:
                 mirror.append(("exit code", want, mexit))
+            # alert / info levels (model: alerts, infoFl, exitOf)
+            if res.get("alert_unrec"):
+                ctx.stat("alert_comparison_skipped")
+                ctx.note("an alert message was not recognised (wording changed?): the alert-level "
+                         "comparison with the model is skipped for such files: "
+                         + str(res["alert_unrec"][0])[:100])
+            else:
+                ma = ans.get("alerts")
+                if ma is not None and " ".join(res["alert_ids"]) != (ma if ma != "-" else ""):
+                    mirror.append(("alerts", res["alert_ids"], ma))
+                if ans.get("exitof") is not None and str(want) != ans["exitof"]:
+                    mirror.append(("exit code (modelled alerts)", want, ans["exitof"]))
+            if res.get("info_fl") is None:
+                ctx.stat("info_comparison_skipped")
+            elif ans.get("info") is not None and res["info_fl"] != ans["info"]:
+                mirror.append(("info Fluorescence", res["info_fl"], ans["info"]))
+            if res.get("index_np") is not None and ans.get("indexok") not in (None, "-") \
+                    and res["index_np"] != ans["indexok"]:
+                mirror.append(("index comparison exact/tolerant (NumPy)", res["index_np"],
+                               ans["indexok"]))
+            if res.get("index_np") is not None and ans.get("indexok") not in (None, "-"):
+                ctx.stat("index_exact_vs_tolerant:" + res["index_np"].replace(" ", ""))
+            ex = res.get("export")
+            if ex is not None and isinstance(ex["v"], list) and ans.get("violexport") is not None \
+                    and " ".join(ex["v"]) != (ans["violexport"] if ans["violexport"] != "-" else ""):
+                mirror.append(("export.hdf5 + check", ex["v"], ans["violexport"]))
         elif res.get("size_unknown"):
             if mv == "raises":
                 ctx.known("F36", "a file without 'experiment:event count' and without a non-empty "
@@ -780,6 +1003,20 @@ def gen_cases(ctx):
     cases.append((("writer", "image", 7, {}), [("evcount", 2)]))
     cases.append((("writer", "image", 7, {}), [("trunc", "index", 2)]))
     cases.append((("writer", "plain", 8, {}), [("unknown",)]))
+    # boundary value of the event count: metadata say 0 events, the features hold some
+    cases.append((("writer", "fl", 7, {}), [("evset", 0)]))
+    cases.append((("export", "image", 6, {}), [("evset", 0)]))
+    # (A') large measurements: clean, and with one array-comparing corruption each (kinds in
+    #      rotation, so that every quick run has late index defects and off-by-one lengths)
+    nl = ctx.n(8, 40)
+    for i in range(nl):
+        wp = LARGE_PATHS[(i // 4) % len(LARGE_PATHS)] if i % 4 == 0 else "writer-large"
+        spec = (wp, "large", rng.randint(200000, 300000), {})
+        if i % 4 == 0:
+            cases.append((spec, []))
+        else:
+            kind = ARRAY_KINDS[(i - i // 4 - 1) % len(ARRAY_KINDS)]
+            cases.append((spec, ("draw", 1, rng.randrange(10**9), [kind])))
     # (B) seeded corruptions
     nb = ctx.n(120, 1500)
     for i in range(nb):
@@ -828,7 +1065,8 @@ def run(ctx, only=None):
         out = ctx.lean("C13", lines) if lines else []
         for j, sp in enumerate(spans):
             if sp:
-                answers[j] = out[sp[0] + sp[1] - 5: sp[0] + sp[1]]
+                nq = len(results[j].get("qnames", []))
+                answers[j] = out[sp[0] + sp[1] - nq: sp[0] + sp[1]]
     any_spec = False
     mirrors = []
     for res, ans in zip(results, answers):
